@@ -1,9 +1,11 @@
 #!/bin/bash
 # benignpar.sh id1 id2 ...: run behaviour-preserving refactorings (benign/<id>/patch.diff) against the properties listed
 # in their meta.json on three isolated slots; every VIOLATION line here is a false alarm of the machinery.
+# SLOT_OFFSET=3 uses slots s4..s6.
 cd "$(dirname "$0")/.."
 ids=("$@")
+off=${SLOT_OFFSET:-0}
 for slot in 0 1 2; do
-  ( i=$slot; while [ $i -lt ${#ids[@]} ]; do SEED_BASE=benign python3 tools/seed.py runiso s$((slot+1)) ${ids[$i]} 2>&1 | grep -E "caught|MISSED|apply"; i=$((i+3)); done ) &
+  ( i=$slot; while [ $i -lt ${#ids[@]} ]; do SEED_BASE=benign python3 tools/seed.py runiso s$((slot+1+off)) ${ids[$i]} 2>&1 | grep -E "caught|MISSED|apply"; i=$((i+3)); done ) &
 done
 wait
